@@ -2,8 +2,8 @@
   C04 — generated JavaScript ≡ Go renderer, COMMAND level (partial).
 
   The fragment: raw text, `{print}` with directives, `{let $x: e /}`, `{if}/{elseif}/{else}`,
-  `{foreach $x in e}…{ifempty}…{/foreach}` (not over `range(…)`), the expressions of Props/C04c inside
-  them.
+  `{foreach $x in e}…{ifempty}…{/foreach}`, `{for $i in range(a[, b[, c]])}` (c a positive literal), the
+  expressions of Props/C04c inside them.
 
   1. `toCmds` translates the commands, in the generator scope they are met in, to the statement AST of
      Spec/JsStmt; `walkCmds_renders`: the generator model writes EXACTLY `renderStmts` of the
@@ -69,6 +69,32 @@ def foreachStmts (names : Bytes × Bytes × Bytes × Bytes) (list : JsExpr) (bod
       | none => loop
       | some ie => .ifPos names.2.2.1 (.one loop) ie)))
 
+/-- a positive integer literal (the step of a `range`) -/
+def posLit : Expr → Bool
+  | .int _ c => decide (0 < c)
+  | _ => false
+
+/-- `var vLimit = limit; for (var v = init; v < vLimit; v += incr) {…}` -/
+def rangeStmts (names : Bytes × Bytes) (limit init incr : JsExpr) (body : JsStmts) : JsStmts :=
+  .cons (.var names.2 limit) (.one (.forStep names.1 names.2 init incr body))
+
+/-- `{for $v in range(…)}` from the translation of its body (in the loop's frame): one to three
+    arguments, the step absent or a positive literal -/
+def rangeJoin (v : Bytes) (list : Expr) (sc : Scope) (rb : Option (JsStmts × Scope)) (noIfEmpty : Bool) :
+    Option (JsStmts × Scope) :=
+  if v.contains 36 || !noIfEmpty then none
+  else match isRangeCall list with
+    | none => none
+    | some args =>
+      match rangeLimit args with
+      | none => none
+      | some l =>
+        if posLit (rangeIncr args) then
+          match toAst sc l, toAst sc (rangeInit args), toAst sc (rangeIncr args), rb with
+          | some jl, some ji, some jc, some rb => some (rangeStmts (sc.pushForRange v).1 jl ji jc rb.1, rb.2.pop)
+          | _, _, _, _ => none
+        else none
+
 /-- `{foreach $v in list}` from the translations of its parts: the body (in the loop's frame) and the
     `{ifempty}` block (a function of the scope it is met in, after the loop's frame is popped) -/
 def forcJoin (v : Bytes) (list : Expr) (sc : Scope) (rb : Option (JsStmts × Scope))
@@ -83,6 +109,14 @@ def forcJoin (v : Bytes) (list : Expr) (sc : Scope) (rb : Option (JsStmts × Sco
             | none => none
             | some re => some (foreachStmts (sc.pushForEach v).1 j rb.1 (some re.1), re.2)))
     | _, _ => none
+
+/-- a loop command: `{foreach}` over a list, else `{for}` over a range -/
+def loopJoin (v : Bytes) (list : Expr) (sc : Scope) (rbEach : Option (JsStmts × Scope))
+    (ie : Option (Scope → Option (JsStmts × Scope))) (rbRange : Option (JsStmts × Scope)) (noIfEmpty : Bool) :
+    Option (JsStmts × Scope) :=
+  match forcJoin v list sc rbEach ie with
+  | some r => some r
+  | none => rangeJoin v list sc rbRange noIfEmpty
 
 section
 variable (ae : Autoescape) (buf : Bytes)
@@ -108,10 +142,11 @@ mutual
       | none => none
     | .forc _ v list body ifEmpty, sc =>
       -- `{foreach $v in list}` (not over `range(…)`): the list is evaluated outside the loop frame
-      forcJoin v list sc (toBody body (sc.pushForEach v).2)
+      loopJoin v list sc (toBody body (sc.pushForEach v).2)
         (match ifEmpty with
           | none => none
           | some ie => some (toBlock ie))
+        (toBody body (sc.pushForRange v).2) ifEmpty.isNone
     | _, _ => none
   /-- the body of a loop: in the loop's frame -/
   def toBody : Block → Scope → Option (JsStmts × Scope)
@@ -181,6 +216,10 @@ mutual
       [.fixed (spaces ind), .fixed b!"for (var ", .ident i, .fixed b!" = 0; ", .ident i, .fixed b!" < ", .ident lim,
         .fixed b!"; ", .ident i, .fixed b!"++) {", .fixed [10]] ++ renderStmts (ind + 1) body ++
         [.fixed (spaces ind), .fixed b!"}", .fixed [10]]
+    | .forStep i lim init incr body =>
+      [.fixed (spaces ind), .fixed b!"for (var ", .ident i, .fixed b!" = "] ++ render init ++
+        [.fixed b!"; ", .ident i, .fixed b!" < ", .ident lim, .fixed b!"; ", .ident i, .fixed b!" += "] ++ render incr ++
+        [.fixed b!") {", .fixed [10]] ++ renderStmts (ind + 1) body ++ [.fixed (spaces ind), .fixed b!"}", .fixed [10]]
     | .ifPos lim body els =>
       [.fixed (spaces ind), .fixed b!"if (", .ident lim, .fixed b!" > 0) {", .fixed [10]] ++ renderStmts (ind + 1) body ++
         [.fixed (spaces ind), .fixed b!"} else {", .fixed [10]] ++ renderStmts (ind + 1) els ++
@@ -485,6 +524,62 @@ theorem forcJoin_some {v : Bytes} {list : Expr} {sc : Scope} {rb : Option (JsStm
             simp only [Option.some.injEq] at h
             exact ⟨re, hre, h.symm⟩
 
+theorem loopJoin_some {v : Bytes} {list : Expr} {sc : Scope} {rbEach rbRange : Option (JsStmts × Scope)}
+    {ie : Option (Scope → Option (JsStmts × Scope))} {noIE : Bool} {r : JsStmts × Scope}
+    (h : loopJoin v list sc rbEach ie rbRange noIE = some r) :
+    forcJoin v list sc rbEach ie = some r ∨ rangeJoin v list sc rbRange noIE = some r := by
+  unfold loopJoin at h
+  split at h
+  · rename_i r' hf
+    simp only [Option.some.injEq] at h
+    subst h
+    exact Or.inl hf
+  · exact Or.inr h
+
+theorem isRangeCall_some {list : Expr} {args : ExprList} (h : isRangeCall list = some args) :
+    ∃ p, list = .func p b!"range" args := by
+  cases list <;> simp [isRangeCall] at h
+  rename_i p name a
+  obtain ⟨hn, rfl⟩ := h
+  exact ⟨p, by rw [hn]⟩
+
+/-- what a successful `rangeJoin` was made from -/
+theorem rangeJoin_some {v : Bytes} {list : Expr} {sc : Scope} {rb : Option (JsStmts × Scope)} {noIE : Bool}
+    {r : JsStmts × Scope} (h : rangeJoin v list sc rb noIE = some r) :
+    v.contains 36 = false ∧ noIE = true ∧ ∃ args l c jl ji rbv p, isRangeCall list = some args ∧ rangeLimit args = some l ∧
+      rangeIncr args = .int p c ∧ 0 < c ∧ toAst sc l = some jl ∧ toAst sc (rangeInit args) = some ji ∧ rb = some rbv ∧
+      r = (rangeStmts (sc.pushForRange v).1 jl ji (.num c) rbv.1, rbv.2.pop) := by
+  unfold rangeJoin at h
+  split at h
+  · cases h
+  · rename_i hc
+    simp only [Bool.or_eq_true, not_or, Bool.not_eq_true, Bool.not_eq_eq_eq_not, Bool.not_false] at hc
+    refine ⟨hc.1, by simpa using hc.2, ?_⟩
+    cases ha : isRangeCall list with
+    | none => simp [ha] at h
+    | some args =>
+      simp only [ha] at h
+      cases hl : rangeLimit args with
+      | none => simp [hl] at h
+      | some l =>
+        simp only [hl] at h
+        split at h
+        · rename_i hpos
+          cases hinc : rangeIncr args <;> simp [hinc, posLit] at hpos
+          rename_i p c
+          cases hjl : toAst sc l with
+          | none => simp [hjl] at h
+          | some jl =>
+            cases hji : toAst sc (rangeInit args) with
+            | none => simp [hjl, hji] at h
+            | some ji =>
+              cases rb with
+              | none => simp [hjl, hji, hinc, toAst] at h
+              | some rbv =>
+                simp only [hjl, hji, hinc, toAst, Option.some.injEq] at h
+                exact ⟨args, l, c, jl, ji, rbv, p, rfl, hl, hinc, hpos, hjl, hji, rfl, h.symm⟩
+        · cases h
+
 section
 variable (sk : List Bytes → List Bytes) (o : Options)
 variable {ind : Nat} {buf : Bytes} {ae : Autoescape} {sc : Scope}
@@ -525,6 +620,27 @@ theorem forc_some_runs (p : Nat) (v : Bytes) (list : Expr) (body ie : Block) (j 
   dsimp only
   exact (Runs.seq (Runs.setScope _) (Runs.seq Runs.indentP (Runs.seq (Runs.fx _) (Runs.seq (Runs.emit _) (Runs.seq (Runs.fx _) (Runs.seq (Runs.emits _) (Runs.seq (Runs.fx _) (Runs.seq Runs.nl (Runs.seq Runs.indentP (Runs.seq (Runs.fx _) (Runs.seq (Runs.emit _) (Runs.seq (Runs.fx _) (Runs.seq (Runs.emit _) (Runs.seq (Runs.fx _) (Runs.seq Runs.nl (Runs.seq (Runs.whenTrue (Runs.seq Runs.indentP (Runs.seq (Runs.fx _) (Runs.seq (Runs.emit _) (Runs.seq (Runs.fx _) (Runs.seq Runs.nl (Runs.incIndent))))))) (Runs.seq Runs.indentP (Runs.seq (Runs.fx _) (Runs.seq (Runs.emit _) (Runs.seq (Runs.fx _) (Runs.seq (Runs.emit _) (Runs.seq (Runs.fx _) (Runs.seq (Runs.emit _) (Runs.seq (Runs.fx _) (Runs.seq (Runs.emit _) (Runs.seq (Runs.fx _) (Runs.seq Runs.nl (Runs.seq Runs.incIndent (Runs.seq Runs.indentP (Runs.seq (Runs.fx _) (Runs.seq (Runs.emit _) (Runs.seq (Runs.fx _) (Runs.seq (Runs.emit _) (Runs.seq (Runs.fx _) (Runs.seq (Runs.emit _) (Runs.seq (Runs.fx _) (Runs.seq Runs.nl (Runs.seq hb (Runs.seq Runs.decIndent (Runs.seq Runs.indentP (Runs.seq (Runs.fx _) (Runs.seq Runs.nl (Runs.seq Runs.popScope (Runs.seq Runs.decIndent (Runs.seq Runs.indentP (Runs.seq (Runs.fx _) (Runs.seq Runs.nl (Runs.seq Runs.incIndent (Runs.seq hie (Runs.seq Runs.decIndent (Runs.seq Runs.indentP (Runs.seq (Runs.fx _) (Runs.nl))))))))))))))))))))))))))))))))))))))))))))))))))))).cast
     (by simp [foreachStmts, renderStmts, renderStmt, JsStmts.one])
+
+theorem forc_range_runs (p : Nat) (v : Bytes) (list : Expr) (body : Block) (args : ExprList) (l : Expr)
+    (jl ji jc : JsExpr) (rb : JsStmts × Scope) (hr : isRangeCall list = some args) (hl : rangeLimit args = some l)
+    (hjl : toAst sc l = some jl) (hji : toAst sc (rangeInit args) = some ji) (hjc : toAst sc (rangeIncr args) = some jc)
+    (hb : Runs (At (ind + 1) buf ae (sc.pushForRange v).2) (At (ind + 1) buf ae rb.2) (walkBody sk o body)
+      (renderStmts (ind + 1) rb.1)) :
+    Runs (At ind buf ae sc) (At ind buf ae rb.2.pop) (walkCmd sk o (.forc p v list body none))
+      (renderStmts ind (rangeStmts (sc.pushForRange v).1 jl ji jc rb.1)) := by
+  sunfold walkCmd
+  mred
+  rw [hr]
+  mred
+  try dsimp only
+  rw [hl]
+  mred
+  refine (Runs.seq Runs.atOther (Runs.block (walkExpr_renders sk o sc l jl hjl)
+    (Runs.block (walkExpr_renders sk o sc _ ji hji) (Runs.block (walkExpr_renders sk o sc _ jc hjc)
+      (Runs.getScope ?_))))).cast (List.nil_append _)
+  try dsimp only
+  exact (Runs.seq (Runs.setScope _) (Runs.seq Runs.indentP (Runs.seq (Runs.fx _) (Runs.seq (Runs.emit _) (Runs.seq (Runs.fx _) (Runs.seq (Runs.emits _) (Runs.seq (Runs.fx _) (Runs.seq Runs.nl (Runs.seq Runs.indentP (Runs.seq (Runs.fx _) (Runs.seq (Runs.emit _) (Runs.seq (Runs.fx _) (Runs.seq (Runs.emits _) (Runs.seq (Runs.fx _) (Runs.seq (Runs.emit _) (Runs.seq (Runs.fx _) (Runs.seq (Runs.emit _) (Runs.seq (Runs.fx _) (Runs.seq (Runs.emit _) (Runs.seq (Runs.fx _) (Runs.seq (Runs.emits _) (Runs.seq (Runs.fx _) (Runs.seq Runs.nl (Runs.seq Runs.incIndent (Runs.seq hb (Runs.seq Runs.decIndent (Runs.seq Runs.indentP (Runs.seq (Runs.fx _) (Runs.seq Runs.nl (Runs.popScope)))))))))))))))))))))))))))))).cast
+    (by simp [rangeStmts, renderStmts, renderStmt, JsStmts.one])
 
 end
 
@@ -574,12 +690,17 @@ mutual
     | .log .., _, _, h, _ => by simp [toCmd] at h
     | .forc p v list body none, sc, r, h, ind => by
       unfold toCmd at h
-      obtain ⟨_, hr, j, rbv, hj, hrb, he⟩ := forcJoin_some h
-      simp only at he
-      subst he
-      exact forc_none_runs sk o p v list body j rbv hr hj (walkBody_renders body _ rbv hrb (ind + 1))
+      rcases loopJoin_some h with h | h
+      · obtain ⟨_, hr, j, rbv, hj, hrb, he⟩ := forcJoin_some h
+        simp only at he
+        subst he
+        exact forc_none_runs sk o p v list body j rbv hr hj (walkBody_renders body _ rbv hrb (ind + 1))
+      · obtain ⟨_, _, args, l, c, jl, ji, rbv, pc, hr, hl, hinc, _, hjl, hji, hrb, rfl⟩ := rangeJoin_some h
+        exact forc_range_runs sk o p v list body args l jl ji (.num c) rbv hr hl hjl hji (by rw [hinc]; rfl)
+          (walkBody_renders body _ rbv hrb (ind + 1))
     | .forc p v list body (some ie), sc, r, h, ind => by
       unfold toCmd at h
+      have h := (loopJoin_some h).resolve_right (by intro h'; have := (rangeJoin_some h').2.1; simp at this)
       obtain ⟨_, hr, j, rbv, hj, hrb, he⟩ := forcJoin_some h
       simp only at he
       obtain ⟨re, hre, rfl⟩ := he
@@ -882,6 +1003,21 @@ theorem scOk_pushForEach {sc : Scope} (h : ScOk sc) (v : Bytes) :
         · cases hkv
   · exact (h.2 f hf kv hkv).mono (Nat.le_succ _)
 
+theorem scOk_pushForRange {sc : Scope} (h : ScOk sc) (v : Bytes) :
+    ScOk (sc.pushForRange v).2 ∧ (sc.pushForRange v).2.stack.tail = sc.stack ∧ (sc.pushForRange v).2.n = sc.n + 1 := by
+  refine ⟨⟨by simp [Scope.pushForRange], ?_⟩, by simp [Scope.pushForRange], rfl⟩
+  intro f hf kv hkv
+  simp only [Scope.pushForRange, List.mem_cons] at hf
+  rcases hf with rfl | hf
+  · rcases frameSet_mem _ _ _ kv hkv with rfl | hkv
+    · intro hk; simp [Scope.kIndex] at hk
+    · rcases frameSet_mem _ _ _ kv hkv with rfl | hkv
+      · intro hk; simp [Scope.kLimit] at hk
+      · rcases frameSet_mem _ _ _ kv hkv with rfl | hkv
+        · intro _; exact ⟨sc.n + 1, Nat.le_refl _, rfl⟩
+        · cases hkv
+  · exact (h.2 f hf kv hkv).mono (Nat.le_succ _)
+
 theorem scOk_of_stack {sc sc' : Scope} (h : ScOk sc) (hs : sc'.stack = sc.stack) (hn : sc.n ≤ sc'.n) : ScOk sc' :=
   ⟨by rw [hs]; exact h.1, bounded_of_stack h.2 hs hn⟩
 
@@ -927,16 +1063,24 @@ mutual
     | .log .., _, _, h, _ => by simp [toCmd] at h
     | .forc p v list body none, sc, r, h, hs => by
       unfold toCmd at h
-      obtain ⟨_, _, j, rbv, _, hrb, he⟩ := forcJoin_some h
-      simp only at he
-      subst he
-      obtain ⟨p1, p2, p3⟩ := scOk_pushForEach hs v
-      obtain ⟨_, b2, b3⟩ := toBody_scope body _ rbv hrb p1
-      have hst : rbv.2.pop.stack = sc.stack := by simp only [Scope.pop]; rw [b2, p2]
-      have hn : sc.n ≤ rbv.2.pop.n := by simp only [Scope.pop]; omega
-      exact ⟨scOk_of_stack hs hst hn, by rw [hst], hn⟩
+      rcases loopJoin_some h with h | h
+      · obtain ⟨_, _, j, rbv, _, hrb, he⟩ := forcJoin_some h
+        simp only at he
+        subst he
+        obtain ⟨p1, p2, p3⟩ := scOk_pushForEach hs v
+        obtain ⟨_, b2, b3⟩ := toBody_scope body _ rbv hrb p1
+        have hst : rbv.2.pop.stack = sc.stack := by simp only [Scope.pop]; rw [b2, p2]
+        have hn : sc.n ≤ rbv.2.pop.n := by simp only [Scope.pop]; omega
+        exact ⟨scOk_of_stack hs hst hn, by rw [hst], hn⟩
+      · obtain ⟨_, _, args, l, c, jl, ji, rbv, pc, _, _, _, _, _, _, hrb, rfl⟩ := rangeJoin_some h
+        obtain ⟨p1, p2, p3⟩ := scOk_pushForRange hs v
+        obtain ⟨_, b2, b3⟩ := toBody_scope body _ rbv hrb p1
+        have hst : rbv.2.pop.stack = sc.stack := by simp only [Scope.pop]; rw [b2, p2]
+        have hn : sc.n ≤ rbv.2.pop.n := by simp only [Scope.pop]; omega
+        exact ⟨scOk_of_stack hs hst hn, by rw [hst], hn⟩
     | .forc p v list body (some ie), sc, r, h, hs => by
       unfold toCmd at h
+      have h := (loopJoin_some h).resolve_right (by intro h'; have := (rangeJoin_some h').2.1; simp at this)
       obtain ⟨_, _, j, rbv, _, hrb, he⟩ := forcJoin_some h
       simp only at he
       obtain ⟨re, hre, rfl⟩ := he
@@ -1570,6 +1714,314 @@ theorem loop_ok {sc : Scope} (hs : ScOk sc) (v : Bytes) (hv : v.contains 36 = fa
       refine ⟨ti ++ tr, ?_, by rw [← List.append_assoc]; exact hb', hk_ec.trans hk' (Nat.le_refl _)⟩
       simp only [Spec.Eval.loopSpec, hti, htr, Spec.Eval.Out.bind]
 
+/-! ### for … in range(…) -/
+
+/-- the elements `range(a, l, s)` has in the specification -/
+def rangeItems (a l s : Int) : List Val :=
+  match Spec.Eval.rangeSpec a l s with
+  | .val (.list xs) => xs
+  | _ => []
+
+omit hbuf in
+theorem rangeSpec_val (a l s : Int) (hs : 0 < s) : Spec.Eval.rangeSpec a l s = .val (.list (rangeItems a l s)) := by
+  have hs' : ¬ s ≤ 0 := by omega
+  unfold rangeItems Spec.Eval.rangeSpec
+  by_cases hle : l ≤ a <;> simp [hs', hle]
+
+omit hbuf in
+theorem rangeItems_done (a l s : Int) (hs : 0 < s) (h : ¬ a < l) : rangeItems a l s = [] := by
+  have hs' : ¬ s ≤ 0 := by omega
+  have hle : l ≤ a := by omega
+  simp [rangeItems, Spec.Eval.rangeSpec, hs', hle]
+
+omit hbuf in
+theorem rangeItems_step (a l s : Int) (hs : 0 < s) (h : a < l) :
+    rangeItems a l s = .int a :: rangeItems (a + s) l s := by
+  have hs' : ¬ s ≤ 0 := by omega
+  have hle : ¬ l ≤ a := by omega
+  have hne : s ≠ 0 := by omega
+  -- the count
+  have hcount : ((l - a) + s - 1) / s = ((l - (a + s)) + s - 1) / s + 1 := by
+    have : (l - a) + s - 1 = ((l - (a + s)) + s - 1) + 1 * s := by omega
+    rw [this, Int.add_mul_ediv_right _ _ hne]
+  by_cases hle2 : l ≤ a + s
+  · -- one element
+    have h1 : ((l - a) + s - 1) / s = 1 := by
+      rw [hcount]
+      have : ((l - (a + s)) + s - 1) / s = 0 := Int.ediv_eq_zero_of_lt (by omega) (by omega)
+      omega
+    simp [rangeItems, Spec.Eval.rangeSpec, hs', hle, hle2, h1, List.range_succ]
+  · have hpos : 0 ≤ ((l - (a + s)) + s - 1) / s := Int.ediv_nonneg (by omega) (by omega)
+    have htn : (((l - a) + s - 1) / s).toNat = (((l - (a + s)) + s - 1) / s).toNat + 1 := by
+      rw [hcount]; omega
+    simp only [rangeItems, Spec.Eval.rangeSpec, hs', hle, hle2, if_false, htn, List.range_succ_eq_map, List.map_cons,
+      List.map_map]
+    congr 1
+    · simp
+    · apply List.map_congr_left
+      intro k _
+      simp only [Function.comp]
+      congr 1
+      simp only [Nat.succ_eq_add_one, Int.natCast_add, Int.natCast_one, Int.add_mul, Int.one_mul]
+      omega
+
+omit hbuf in
+theorem pushForRange_lookup (sc : Scope) (x k : Bytes) (hk : k.contains 36 = false) :
+    (sc.pushForRange x).2.lookup k = if x == k then some (sc.pushForRange x).1.1 else sc.lookup k := by
+  have hlim : ((Scope.kLimit ++ x) == k) = false := by
+    have : (Scope.kLimit ++ x).contains 36 = true := by simp [Scope.kLimit]
+    cases h : ((Scope.kLimit ++ x) == k) with
+    | false => rfl
+    | true => have := C04c.beq_true_eq h; subst this; simp_all
+  have hidx : ((Scope.kIndex ++ x) == k) = false := by
+    have : (Scope.kIndex ++ x).contains 36 = true := by simp [Scope.kIndex]
+    cases h : ((Scope.kIndex ++ x) == k) with
+    | false => rfl
+    | true => have := C04c.beq_true_eq h; subst this; simp_all
+  simp only [Scope.pushForRange, Scope.lookup, Scope.lookupIn, C04c.frameGet_frameSet, hlim, hidx, Bool.false_eq_true, if_false]
+  by_cases h : (x == k) = true
+  · simp [h]
+  · simp [h, frameGet?]
+
+omit hbuf in
+/-- inside a range loop: the loop variable is held by its local, everything else as outside -/
+theorem envRel_forrange (sc : Scope) (env : SEnv) (e : JEnv) (x : Bytes) (a : Int) (hrel : EnvRel sc env e)
+    (ha : SoyVerif.Spec.JsSem.exact a = true)
+    (hfind : e.locals.find? (·.1 == (sc.pushForRange x).1.1) = some ((sc.pushForRange x).1.1, .num a)) (loops) :
+    EnvRel (sc.pushForRange x).2 { (env.bind x (.int a)) with loops := loops } e := by
+  intro k hk hd
+  rw [pushForRange_lookup sc x k hd]
+  by_cases hkx : (x == k) = true
+  · have : x = k := by simpa using hkx
+    subst this
+    simp only [hkx, if_true]
+    refine ⟨_, hfind, ?_⟩
+    simp [Spec.Eval.Env.bind, Spec.Eval.Env.lookup, Spec.Eval.find, C04c.toJsV, ha]
+  · simp only [hkx, Bool.false_eq_true, if_false]
+    have hr := hrel k hk hd
+    have hlook : Spec.Eval.Env.lookup { (env.bind x (.int a)) with loops := loops } k = env.lookup k := by
+      have : (x == k) = false := by simpa using hkx
+      simp [Spec.Eval.Env.bind, Spec.Eval.Env.lookup, Spec.Eval.find, this]
+    rw [hlook]
+    exact hr
+
+omit hbuf in
+theorem applyFn_range (args : List Val) : Spec.Eval.applyFn b!"range" args =
+    (match args with
+     | [.int l] => Spec.Eval.rangeSpec 0 l 1
+     | [.int a, .int l] => Spec.Eval.rangeSpec a l 1
+     | [.int a, .int l, .int s] => Spec.Eval.rangeSpec a l s
+     | _ => .error) := rfl
+
+omit hbuf in
+/-- the list a `range(…)` call denotes, from the values of its init / limit / step -/
+theorem range_eval (env : SEnv) (p : Nat) (args : ExprList) (l : Expr) (a lim st : Int)
+    (hl : rangeLimit args = some l) (h1 : Spec.Eval.eval env (rangeInit args) = .val (.int a))
+    (h2 : Spec.Eval.eval env l = .val (.int lim)) (h3 : Spec.Eval.eval env (rangeIncr args) = .val (.int st)) :
+    Spec.Eval.eval env (.func p b!"range" args) = Spec.Eval.rangeSpec a lim st := by
+  have hloop : Spec.Eval.isLoopFn b!"range" = false := rfl
+  have hz : ∀ z : Int, Spec.Eval.eval env (litInt z) = .val (.int z) := fun z => by simp [litInt, Spec.Eval.eval]
+  cases args with
+  | nil => simp [rangeLimit] at hl
+  | cons x r =>
+    cases r with
+    | nil =>
+      simp only [rangeLimit, Option.some.injEq] at hl; subst hl
+      simp only [rangeInit, rangeIncr, hz, Out.val.injEq, Val.int.injEq] at h1 h3
+      subst h1; subst h3
+      simp [Spec.Eval.eval, hloop, Spec.Eval.evalList, h2, Spec.Eval.Out.bind, applyFn_range]
+    | cons y r2 =>
+      cases r2 with
+      | nil =>
+        simp only [rangeLimit, Option.some.injEq] at hl; subst hl
+        simp only [rangeInit] at h1
+        simp only [rangeIncr, hz, Out.val.injEq, Val.int.injEq] at h3
+        subst h3
+        simp [Spec.Eval.eval, hloop, Spec.Eval.evalList, h1, h2, Spec.Eval.Out.bind, applyFn_range]
+      | cons z r3 =>
+        cases r3 with
+        | nil =>
+          simp only [rangeLimit, Option.some.injEq] at hl; subst hl
+          simp only [rangeInit] at h1
+          simp only [rangeIncr] at h3
+          simp [Spec.Eval.eval, hloop, Spec.Eval.evalList, h1, h2, h3, Spec.Eval.Out.bind, applyFn_range]
+        | cons _ _ => simp [rangeLimit] at hl
+
+/-- the iterations from value `a` on: the JavaScript loop and `loopSpec` over the rest of the range agree -/
+theorem range_loop_ok {sc : Scope} (hs : ScOk sc) (v : Bytes) (hv : v.contains 36 = false) (body : Block)
+    (rb : JsStmts × Scope) (hrb : toBody ae buf body (sc.pushForRange v).2 = some rb) (ihb : BodyOk F ae buf body)
+    (env : SEnv) (l s : Int) (hspos : 0 < s) (fuel last : Nat)
+    (lv xn : Bytes) (hlv : lv = Scope.jsname v [] (sc.n + 1)) (hxn : xn = Scope.jsname v b!"Limit" (sc.n + 1)) :
+    ∀ (k : Nat) (a : Int) (idx : Nat) (e e' : JEnv) (out : Bytes),
+      SoyVerif.Spec.JsSem.exact a = true → EnvRel sc env e → BufIs buf e out →
+      e.locals.find? (·.1 == xn) = some (xn, .num l) →
+      e.locals.find? (·.1 == lv) = some (lv, .num a) →
+      execLoopStep (execStmts F fuel rb.1) lv xn (.num s) k e = .ok e' →
+      ∃ text, Spec.Eval.loopSpec (refBlock F ae body) env v last (rangeItems a l s) idx = .val text ∧
+        BufIs buf e' (out ++ text) ∧ Keeps buf sc.n e e' := by
+  have uN : IsUse b!"Limit" := Or.inr (Or.inr (Or.inl rfl))
+  have u0 : IsUse [] := Or.inl rfl
+  have ne_lv_xn : xn ≠ lv := by
+    rw [hxn, hlv]; intro e; have := (jsname_inj_all hv hv uN u0 e).2.1; simp at this
+  have nb : ∀ u m, Scope.jsname v u m ≠ buf := by
+    intro u m e
+    have := jsname_dollar v u m
+    rw [e, hbuf] at this
+    cases this
+  obtain ⟨hs1, _, hn1⟩ := scOk_pushForRange hs v
+  intro k
+  induction k with
+  | zero => intro a idx e e' out _ _ _ _ _ hx; simp [execLoopStep] at hx
+  | succ k ih =>
+    intro a idx e e' out hexa hrel hb h2 h3 hx
+    unfold execLoopStep at hx
+    obtain ⟨c, hc, hx⟩ := withVal_ok hx
+    rw [cond_lt h3 h2] at hc
+    simp only [JOut.val.injEq] at hc
+    subst hc
+    by_cases hlt : a < l
+    · have : decide (a < l) = true := by simpa using hlt
+      simp only [this, toBoolean, if_true] at hx
+      obtain ⟨eb, hbody, hx⟩ := sres_bind_ok hx
+      have hrel_a : EnvRel (sc.pushForRange v).2
+          { (env.bind v (.int a)) with loops := (v, idx, last) :: env.loops } e :=
+        envRel_forrange sc env e v a hrel hexa (by rw [hlv] at h3; exact h3) _
+      obtain ⟨ti, hti, hb_b, hk_b⟩ := ihb fuel _ rb _ _ eb out hrb hs1 hrel_a hb hbody
+      rw [hn1] at hk_b
+      have oI : Old (sc.n + 1) lv := by rw [hlv]; exact old_jsname hv u0 (Nat.le_refl _)
+      have oN : Old (sc.n + 1) xn := by rw [hxn]; exact old_jsname hv uN (Nat.le_refl _)
+      have h3b : eb.locals.find? (·.1 == lv) = some (lv, .num a) := by
+        rw [hk_b.2.2 lv (by rw [hlv]; exact nb _ _) oI]; exact h3
+      have h2b : eb.locals.find? (·.1 == xn) = some (xn, .num l) := by
+        rw [hk_b.2.2 xn (by rw [hxn]; exact nb _ _) oN]; exact h2
+      -- `lv += s`
+      rw [eval_local h3b] at hx
+      obtain ⟨v0, hv0, hx⟩ := withVal_ok hx
+      simp only [JOut.val.injEq] at hv0
+      subst hv0
+      obtain ⟨d, hd, hx⟩ := withVal_ok hx
+      have hd' : d = .num s := by
+        unfold eval at hd
+        split at hd
+        · simp only [JOut.val.injEq] at hd; exact hd.symm
+        · cases hd
+      subst hd'
+      obtain ⟨r, hr, hx⟩ := withVal_ok hx
+      simp only [binop] at hr
+      obtain ⟨hexa', rfl⟩ := C04c.numRes_val hr
+      have hk_c : Keeps buf sc.n eb (setLocal eb lv (.num (a + s))) := by
+        rw [hlv]; exact keeps_setNew buf sc.n eb hv u0 (Nat.lt_succ_self _) _
+      have hk_ec : Keeps buf sc.n e (setLocal eb lv (.num (a + s))) :=
+        ((hk_b.mono (Nat.le_succ _))).trans hk_c (Nat.le_refl _)
+      have hrel_c := envRel_keep (sc' := sc) hrel hk_ec hs.2 (Nat.le_refl _) hbuf rfl
+      have hb_c : BufIs buf (setLocal eb lv (.num (a + s))) (out ++ ti) := by
+        unfold BufIs
+        rw [find_setLocal_ne eb lv buf _ (by rw [hlv]; exact (nb _ _).symm)]
+        exact hb_b
+      have h2c : (setLocal eb lv (.num (a + s))).locals.find? (·.1 == xn) = some (xn, .num l) := by
+        rw [find_setLocal_ne eb lv xn _ ne_lv_xn]; exact h2b
+      obtain ⟨tr, htr, hb', hk'⟩ := ih (a + s) (idx + 1) _ e' (out ++ ti) hexa' hrel_c hb_c h2c (find_setLocal_eq _ _ _) hx
+      refine ⟨ti ++ tr, ?_, by rw [← List.append_assoc]; exact hb', hk_ec.trans hk' (Nat.le_refl _)⟩
+      rw [rangeItems_step a l s hspos hlt]
+      simp only [Spec.Eval.loopSpec, hti, htr, Spec.Eval.Out.bind]
+    · have : decide (a < l) = false := by simpa using hlt
+      simp only [this, toBoolean, Bool.false_eq_true, if_false, SRes.ok.injEq] at hx
+      subst hx
+      rw [rangeItems_done a l s hspos hlt]
+      exact ⟨[], by simp [Spec.Eval.loopSpec], by simpa using hb, Keeps.refl _ _ _⟩
+
+omit hbuf in
+/-- a loop that completes has compared two numbers -/
+theorem loop_first {body : JEnv → SRes} {i lim : Bytes} {incr : JsExpr} {k : Nat} {e e' : JEnv} {vi vl : JVal}
+    (hx : execLoopStep body i lim incr k e = .ok e') (h1 : e.locals.find? (·.1 == i) = some (i, vi))
+    (h2 : e.locals.find? (·.1 == lim) = some (lim, vl)) : ∃ a l, vi = .num a ∧ vl = .num l := by
+  cases k with
+  | zero => simp [execLoopStep] at hx
+  | succ k =>
+    unfold execLoopStep at hx
+    obtain ⟨c, hc, _⟩ := withVal_ok hx
+    have : eval e (.bin .lt (.local i) (.local lim)) = binop .lt vi vl := by
+      simp [eval, JOut.bind, h1, h2]
+    rw [this] at hc
+    cases vi <;> cases vl <;> simp [binop] at hc
+    exact ⟨_, _, rfl, rfl⟩
+
+theorem range_ok (p : Nat) (v : Bytes) (list : Expr) (body : Block) (ihb : BodyOk F ae buf body) :
+    ∀ (fuel : Nat) (sc : Scope) (r : JsStmts × Scope) (env : SEnv) (jenv jenv' : JEnv) (out : Bytes),
+      rangeJoin v list sc (toBody ae buf body (sc.pushForRange v).2) true = some r → ScOk sc → EnvRel sc env jenv →
+      BufIs buf jenv out → execStmts F fuel r.1 jenv = .ok jenv' →
+      ∃ text env', refCmd F ae (.forc p v list body none) env = .val (text, env') ∧ EnvRel r.2 env' jenv' ∧
+        BufIs buf jenv' (out ++ text) ∧ Keeps buf sc.n jenv jenv' := by
+  intro fuel sc r env jenv jenv' out h hs hrel hb hx
+  obtain ⟨hv, _, args, l, c, jl, ji, rbv, pc, hr, hl, hinc, hpos, hjl, hji, hrb, rfl⟩ := rangeJoin_some h
+  obtain ⟨pf, rfl⟩ := isRangeCall_some hr
+  have uN : IsUse b!"Limit" := Or.inr (Or.inr (Or.inl rfl))
+  have u0 : IsUse [] := Or.inl rfl
+  have nb : ∀ u m, Scope.jsname v u m ≠ buf := by
+    intro u m e
+    have := jsname_dollar v u m
+    rw [e, hbuf] at this
+    cases this
+  have ne_lv_xn : (sc.pushForRange v).1.2 ≠ (sc.pushForRange v).1.1 := by
+    intro e
+    have := (jsname_inj_all hv hv uN u0 e).2.1
+    simp at this
+  simp only [rangeStmts, JsStmts.one, execStmts] at hx
+  obtain ⟨e1, h1, hx⟩ := sres_bind_ok hx
+  obtain ⟨e2, h2, hx⟩ := sres_bind_ok hx
+  simp only [SRes.ok.injEq] at hx
+  subst hx
+  -- `var vLimit = limit;`
+  simp only [execStmt] at h1
+  obtain ⟨jlim, hjlim, h1⟩ := withVal_ok h1
+  simp only [SRes.ok.injEq] at h1
+  subst h1
+  obtain ⟨vlim, hvlim, hlimj⟩ := C04c.gen_correct_refs_partial sc env jenv hrel l jl jlim hjl hjlim
+  have k1 : Keeps buf sc.n jenv (setLocal jenv (sc.pushForRange v).1.2 jlim) :=
+    keeps_setNew buf sc.n jenv hv uN (Nat.lt_succ_self _) _
+  have hrel1 := envRel_keep (sc' := sc) hrel k1 hs.2 (Nat.le_refl _) hbuf rfl
+  -- `for (var v = init; …`
+  simp only [execStmt] at h2
+  obtain ⟨jinit, hjinit, h2⟩ := withVal_ok h2
+  obtain ⟨vinit, hvinit, hinitj⟩ := C04c.gen_correct_refs_partial sc env _ hrel1 _ ji jinit hji hjinit
+  have k2 : Keeps buf sc.n (setLocal jenv (sc.pushForRange v).1.2 jlim)
+      (setLocal (setLocal jenv (sc.pushForRange v).1.2 jlim) (sc.pushForRange v).1.1 jinit) :=
+    keeps_setNew buf sc.n _ hv u0 (Nat.lt_succ_self _) _
+  have k12 := k1.trans k2 (Nat.le_refl _)
+  have hrel2 := envRel_keep (sc' := sc) hrel k12 hs.2 (Nat.le_refl _) hbuf rfl
+  have hfl : (setLocal (setLocal jenv (sc.pushForRange v).1.2 jlim) (sc.pushForRange v).1.1 jinit).locals.find?
+      (·.1 == (sc.pushForRange v).1.2) = some ((sc.pushForRange v).1.2, jlim) := by
+    rw [find_setLocal_ne _ _ _ _ ne_lv_xn]; exact find_setLocal_eq _ _ _
+  obtain ⟨a, lim, rfl, rfl⟩ := loop_first h2 (find_setLocal_eq _ _ _) hfl
+  obtain ⟨rfl, hexa⟩ := C04c.toJsV_num hinitj
+  obtain ⟨rfl, _⟩ := C04c.toJsV_num hlimj
+  have hb2 : BufIs buf (setLocal (setLocal jenv (sc.pushForRange v).1.2 (.num lim)) (sc.pushForRange v).1.1 (.num a)) out := by
+    have nb1 : (sc.pushForRange v).1.1 ≠ buf := nb [] (sc.n + 1)
+    have nb2 : (sc.pushForRange v).1.2 ≠ buf := nb b!"Limit" (sc.n + 1)
+    unfold BufIs
+    rw [find_setLocal_ne _ (sc.pushForRange v).1.1 buf _ nb1.symm, find_setLocal_ne _ (sc.pushForRange v).1.2 buf _ nb2.symm]
+    exact hb
+  obtain ⟨text, ht, hb', hk'⟩ := range_loop_ok F ae buf hbuf hs v hv body rbv hrb ihb env lim c hpos fuel
+    ((rangeItems a lim c).length - 1) _ _ rfl rfl fuel a 0 _ e2 out hexa hrel2 hb2 hfl (find_setLocal_eq _ _ _) h2
+  have hk := k12.trans hk' (Nat.le_refl _)
+  have hst : rbv.2.pop.stack = sc.stack := by
+    obtain ⟨p1, p2, _⟩ := scOk_pushForRange hs v
+    obtain ⟨_, b2, _⟩ := toBody_scope ae buf body _ rbv hrb p1
+    simp only [Scope.pop]; rw [b2, p2]
+  have hev : Spec.Eval.eval env (.func pf b!"range" args) = .val (.list (rangeItems a lim c)) := by
+    rw [range_eval env pf args l a lim c hl hvinit hvlim (by rw [hinc]; simp [Spec.Eval.eval]), rangeSpec_val a lim c hpos]
+  refine ⟨text, env, ?_, envRel_keep hrel hk hs.2 (Nat.le_refl _) hbuf hst, hb', hk⟩
+  cases hitems : rangeItems a lim c with
+  | nil =>
+    rw [hitems] at ht
+    simp only [Spec.Eval.loopSpec, Out.val.injEq] at ht
+    subst ht
+    simp [refCmd, hev, hitems, Spec.Eval.Out.bind]
+  | cons x xs' =>
+    rw [hitems] at ht
+    have ht' : Spec.Eval.loopSpec (refBlock F ae body) env v xs'.length (x :: xs') 0 = .val text := by simpa using ht
+    simp [refCmd, hev, hitems, Spec.Eval.Out.bind, ht']
+
 /-- `var xList = list; var xLimit = xList.length;` and then the loop -/
 theorem foreach_core {sc : Scope} (hs : ScOk sc) (v : Bytes) (hv : v.contains 36 = false) (list : Expr) (j : JsExpr)
     (hj : toAst sc list = some j) (body : Block) (rb : JsStmts × Scope)
@@ -1650,6 +2102,8 @@ theorem forc_none_ok (p : Nat) (v : Bytes) (list : Expr) (body : Block) (ihb : B
   intro fuel sc r env jenv jenv' out h hs hrel hb hx
   have hscope := toCmd_scope ae buf _ sc r h hs
   unfold toCmd at h
+  rcases loopJoin_some h with h | h
+  case inr => exact range_ok F ae buf hbuf p v list body ihb fuel sc r env jenv jenv' out h hs hrel hb hx
   obtain ⟨hv, _, j, rbv, hj, hrb, he⟩ := forcJoin_some h
   simp only at he
   subst he
@@ -1682,6 +2136,7 @@ theorem forc_some_ok (p : Nat) (v : Bytes) (list : Expr) (body ie : Block) (ihb 
     (ihe : BlockOk F ae buf ie) : CmdOk F ae buf (.forc p v list body (some ie)) := by
   intro fuel sc r env jenv jenv' out h hs hrel hb hx
   unfold toCmd at h
+  have h := (loopJoin_some h).resolve_right (by intro h'; have := (rangeJoin_some h').2.1; simp at this)
   obtain ⟨hv, _, j, rbv, hj, hrb, he⟩ := forcJoin_some h
   simp only at he
   obtain ⟨re, hre, rfl⟩ := he
@@ -1774,8 +2229,8 @@ section
 variable (F : Bytes → List Expr → JVal → JOut) (ae : Autoescape) (buf : Bytes)
 
 /-- PARTIAL (C04, command level).  For a list of commands of the fragment — raw text, `{print}` with
-    directives, `{let $x: e /}`, `{if}/{elseif}/{else}`, `{foreach}` / `{ifempty}`, over the expressions of
-    Props/C04c — met in the
+    directives, `{let $x: e /}`, `{if}/{elseif}/{else}`, `{foreach}` / `{ifempty}`, `{for … in range(…)}`, over the
+    expressions of Props/C04c — met in the
     generator scope `sc` with output variable `buf`:
     (a) the generator model writes exactly the statements `st` of the translation;
     (b) whenever these statements run to completion (Spec/JsStmt; every interpretation `F` of the
@@ -2148,11 +2603,32 @@ example : (match toCmds .off b!"output" sampleLoop ⟨[[]], 0⟩ with
       | _ => false)
     | none => false) = true := rfl
 
+/-- `{for $i in range(1, $n, 2)}{$i},{/for}{$i}` — after the loop `$i` is the parameter again -/
+def sampleRange : CmdList :=
+  .cons (.forc 0 b!"i" (.func 0 b!"range" (.cons (.int 0 1) (.cons (.dataRef 0 b!"n" .nil) (.cons (.int 0 2) .nil))))
+      (.mk 0 (.cons (.print 0 (.dataRef 0 b!"i" .nil) []) (.cons (.rawText 0 b!",") .nil))) none)
+  (.cons (.print 0 (.dataRef 0 b!"i" .nil) []) .nil)
+
+set_option maxRecDepth 8000 in
+example : (toCmds .off b!"output" sampleRange ⟨[[]], 0⟩).map (fun r => printPieces (renderStmts 1 r.1)) = some
+    b!"  var i$Limit1 = opt_data.n;\n  for (var i$1 = 1; i$1 < i$Limit1; i$1 += 2) {\n    output += i$1;\n    output += ',';\n  }\n  output += opt_data.i;\n" := rfl
+
+example : (match toCmds .off b!"output" sampleRange ⟨[[]], 0⟩ with
+    | some r => (match execStmts sampleF 10 r.1 ⟨[(b!"n", .num 6), (b!"i", .str b!"p")], none, [(b!"output", .str [])]⟩ with
+      | .ok e => (e.locals.find? (·.1 == b!"output")).map (·.2)
+      | _ => none)
+    | none => none) = some (.str b!"1,3,5,p") := rfl
+
+example : refCmds sampleF .off sampleRange
+    { vars := [(b!"n", .int 6), (b!"i", .str b!"p")], loops := [], ij := none, globals := [] } = .val b!"1,3,5,p" := rfl
+
 /-! ## what is proved, and what remains outside
 
   PROVED, for command lists built from raw text, `{print e |d…}` (directive arguments literal, every
   directive known to both backends), `{let $x: e /}`, `{if}/{elseif}/{else}`, `{foreach $x in e}` with
-  or without `{ifempty}` (`e` not a `range(…)` call) — nested at will — with `e` in the expression
+  or without `{ifempty}`, `{for $i in range(…)}` with one to three arguments (the step absent or a
+  positive integer literal: the specification leaves a non-positive step open, and JavaScript then
+  loops forever or not at all) — nested at will — with `e` in the expression
   fragment of Props/C04c (literals, arithmetic / comparison / logic, `?:`, `?:`-elvis, variables and
   parameters with `.k` / `[i]` / `?.k` accesses, length / isNonnull / floor / ceiling / round / min /
   max; no floats, integers a double holds exactly):
@@ -2172,8 +2648,7 @@ example : (match toCmds .off b!"output" sampleLoop ⟨[[]], 0⟩ with
   of a list or a map is text in Soy and `unspec` here; a `{foreach}` over a non-list is a Soy error
   and a TypeError / nothing at all in JavaScript).
 
-  OUTSIDE (no theorem at the command level): `{for $i in range(…)}` (the statement
-  `for (var i = a; i < b; i += c)` and its agreement with the list `range` builds), the loop functions
+  OUTSIDE (no theorem at the command level): `range` with a computed step, the loop functions
   index / isFirst / isLast, `{switch}`, `{call}` (needs a semantics of the generated FUNCTIONS and
   of soy.$$augmentMap), `{msg}` (placeholders, plural), `{let}` / `{param}` with content (a second
   output variable), `{css}`, `{log}`, `{debugger}`, `$ij`, globals, print directives with
